@@ -2,6 +2,10 @@
 from framework import Case
 
 PROP = 'C03'
+# tools/rs2lean_csm.py regenerates lean/DcVerif/Gen/Csm.lean from the current source of csm_types/{mod,csm_state,csm_action}.rs;
+# Props/C03Gen.lean proves every generated definition equal to the hand model the C03 theorems (and the driver) are about
+TRANSLATORS = ['csm']
+EXTRA_THEOREM_MODULES = ['DcVerif.Props.C03Gen']
 BUILDS = ['safe']
 RULE = ('per case a pool of 3–10 causal states (state ids drawn from 0…6 so that ids collide inside CSM::new / '
         'update_all_states; pairwise distinct integer data, small, negative and ~2^40, whose residue mod 3 encodes the verdict '
@@ -9,7 +13,8 @@ RULE = ('per case a pool of 3–10 causal states (state ids drawn from 0…6 so 
         'counters; histories of 1–60 calls over 16 keys (0…11, 15, 16, 1000003, 2^40) (collisions forced: ~half of the add/update/remove/evaluate calls hit a '
         'registered id, half an absent one), evaluations interleaved everywhere, fault switch for causal functions and fault '
         'mask for actions toggled inside the history; malformed stream: calls before CSM::new, empty slices, evaluation of an '
-        'empty machine; exhaustive small scope: all 3-call table histories over 2 keys followed by a full probe. '
+        'empty machine; exhaustive small scope: all 3-call table histories over 2 keys followed by a full probe; integer literals of the '
+        'regenerated Gen/Csm.lean (none on the unchanged tree) join the key alphabet with their neighbours and get directed cases. '
         'non-trivial = a table call and an evaluation; distinct = sha256 of the case text')
 ASSUMPTIONS = ['HashMap iteration order is external nondeterminism: the order observed through the causal-function log must be a '
                'duplicate-free enumeration of the registered ids (checked per call); theorems hold for every order',
@@ -18,6 +23,35 @@ ASSUMPTIONS = ['HashMap iteration order is external nondeterminism: the order ob
 
 
 KEYS = list(range(12)) + [15, 16, 1000003, 2 ** 40]
+
+
+def source_constants():
+    """integer literals of the regenerated Gen/Csm.lean — there is none on the unchanged tree: an id (or a count) the source singles
+    out joins the key alphabet together with its neighbours, so that the search after a broken obligation aims at it"""
+    import os, re
+    try:
+        text = open(os.path.join(os.path.dirname(os.path.abspath(__file__)), '..', 'lean', 'DcVerif', 'Gen', 'Csm.lean')).read()
+    except OSError:
+        return []
+    text = re.sub(r'--[^\n]*', '', re.sub(r'/-.*?-/', '', text, flags=re.S))
+    out = []
+    for m in re.findall(r'(?<![\w.])\d+(?![\w.])', text):
+        for x in (int(m) - 1, int(m), int(m) + 1):
+            if 0 <= x < 2 ** 63 and x not in KEYS and x not in out:
+                out.append(x)
+    return out[:30]
+
+
+def directed(consts):
+    """every call with each singled-out constant as the id, on a registered and on an absent id, with probes in between"""
+    states = [(j % 7, 3 * (j + 1) + (1 if j % 4 else 0), j % 2) for j in range(10)]
+    probe = ['len', 'evalall', 'counts']
+    for c in consts:
+        ops = ['new 0:0,1:1', f'remove {c}', f'update {c} 2 2', f'evals {c} 4', f'add {c} 3 3'] + probe + \
+              [f'add {c} 4 4', f'evals {c} 4', f'evals {c} 3', f'update {c} 5 5', f'evals {c} 7'] + probe + \
+              [f'evals 0 {c}', f'evals 1 {c}', f'remove {c}', f'remove {c}', f'evals {c} 1'] + probe + \
+              [f'add {c} 6 6', 'updall 2:2,3:3', f'evals {c} 1'] + probe
+        yield Case(_hdr(states), ops, tags=('directed-constant',))
 
 
 def _pool(rng):
@@ -42,7 +76,7 @@ def _data(rng):
     return 3 * q + rng.choice([0, 1, 1, 2] if rng.random() < 0.5 else [0, 1])
 
 
-def _history(rng, states, length, start_new=True):
+def _history(rng, states, length, start_new=True, KEYS=KEYS):
     """the generator tracks which ids are registered (python-side bookkeeping only, to aim the calls)"""
     n = len(states)
     ops, reg = [], set()
@@ -121,20 +155,23 @@ def scale():
 
 def generate(rng, tier):
     yield from scale()
+    consts = source_constants()
+    yield from directed(consts)
+    keys = KEYS + consts
     ncases = 1200 if tier == 'quick' else 30000
     for n in range(ncases):
         states = _pool(rng)
         length = rng.randrange(1, 61)
         r = rng.random()
         if r < 0.9:
-            ops = _history(rng, states, length)
+            ops = _history(rng, states, length, KEYS=keys)
             tags = ()
         elif r < 0.95:   # malformed: calls before CSM::new
-            ops = _history(rng, states, rng.randrange(1, 6), start_new=False) + _history(rng, states, length)
+            ops = _history(rng, states, rng.randrange(1, 6), start_new=False, KEYS=keys) + _history(rng, states, length, KEYS=keys)
             tags = ('malformed-before-new',)
         else:            # empty machine
             ops = ['new -', 'evalall', 'len', f'evals {rng.randrange(8)} 1', f'remove {rng.randrange(8)}'] + \
-                  _history(rng, states, length, start_new=False)
+                  _history(rng, states, length, start_new=False, KEYS=keys)
             tags = ('empty-machine',)
         ops += ['evalall', 'len', 'counts']
         yield Case(_hdr(states), ops, tags=tags)
